@@ -35,6 +35,27 @@ func TestCheck(t *testing.T) {
 		seed := int64(r.Uint64() >> 1)
 		mrand.Seed(seed)
 		l := spec.New(nil, "c15")
+		// the documented default multiplier (30) as the constructors hand it out: "default" arguments (-1 / 0) and
+		// the NewDefault... constructors; half of these cases keep the limit pinned (app-limited samples) so that the
+		// probe cadence stays short
+		ctor, pinned := "", false
+		if spec.Kind == "vegas" && r.IntN(4) == 0 {
+			ctor = []string{"NewDefaultVegasLimit", "NewDefaultVegasLimitWithLimit", "WithRegistry(probeMultiplier=-1)", "WithRegistry(probeMultiplier=0)"}[r.IntN(4)]
+			pinned = r.IntN(2) == 0
+			spec = limgen.Spec{Kind: "vegas", Initial: 20, Max: 1000, Smoothing: 1, ProbeMult: 30}
+			switch ctor {
+			case "NewDefaultVegasLimit":
+				l = limit.NewDefaultVegasLimit("c15", nil, nil)
+			case "NewDefaultVegasLimitWithLimit":
+				spec.Initial = 1 + r.IntN(30)
+				l = limit.NewDefaultVegasLimitWithLimit("c15", spec.Initial, nil, nil)
+			case "WithRegistry(probeMultiplier=-1)":
+				l = limit.NewVegasLimitWithRegistry("c15", -1, nil, -1, -1, nil, nil, nil, nil, nil, -1, nil, nil)
+			default:
+				l = limit.NewVegasLimitWithRegistry("c15", -1, nil, -1, -1, nil, nil, nil, nil, nil, 0, nil, nil)
+			}
+			rt.Count("cases_with_default_probe_multiplier/"+ctor, 1)
+		}
 		nl := l.(limgen.NoLoader)
 		n := 1500 + r.IntN(2500)
 		rtts := make([]int64, 0, n)
@@ -52,6 +73,9 @@ func TestCheck(t *testing.T) {
 				lo = 0
 			}
 			extra["spec"], extra["math_rand_seed"], extra["sample_index"], extra["rtts_tail"] = spec, seed, i, rtts[lo:i+1]
+			if ctor != "" {
+				extra["constructor"], extra["limit_pinned_by_app_limited_samples"] = ctor, pinned
+			}
 			rt.Violation("C15/"+spec.Kind+"/"+sig, idx, extra)
 		}
 		for i := 0; i < n; i++ {
@@ -73,6 +97,9 @@ func TestCheck(t *testing.T) {
 				inflight = est + r.IntN(5)
 			}
 			drop := r.IntN(40) == 0
+			if pinned {
+				inflight, drop = 1, false
+			}
 			l.OnSample(0, rtt, inflight, drop)
 			rtts = append(rtts, rtt)
 			where[rtt] = i
